@@ -1,6 +1,8 @@
 import Got.Model.Atomics
 import Got.Spec.Atomics
 import Got.Lemmas.Atomics
+import Got.Lemmas.AtomicsAst
+import Got.Lemmas.AtomicsAstMutex
 /- property theorems of C17 (only theorems + non-vacuity examples live here) -/
 open Got.Model.Atomics Got.Spec.Atomics Got.Lemmas.Atomics
 
@@ -269,3 +271,140 @@ theorem C17_old_count_counterexample : countOld 1#32 = 0 ∧ count 1#32 = 1 := b
 
 /-- non-vacuity / regression values: held + 2 waiters → 3; unheld + 2 waiters → 2 -/
 example : count 17#32 = 3 ∧ count 16#32 = 2 ∧ countOld 17#32 = 2 := by decide
+
+/-! ## the translated source (translator tie for the CAS loops)
+
+`Got.Generated.AstLoomAtomics.addFlag` / `removeFlag` / `addIf64` are the programs that tools/srcfacts (minigo_atomic.go)
+re-translates from /repo/loom/flag.go and /repo/loom/atomic.go on every run into the atomic-instruction IR of
+Got/Model/AtomicIR.lean; its generic small-step semantics turns them into labelled transition systems
+(`Got.Model.AtomicsGen`: `flagStep`/`flagRun`, `addIfStep`/`addIfRun`; client actions `invoke t call` and `tau t` = thread
+`t` performs its next atomic access and the local computation up to the following one).  `RelF g s` / `RelA g s aux`
+(Got/Lemmas/AtomicsAst.lean): the generated state `g` has the same word as the hand-written state `s` and every thread's
+continuation and locals are the image of its hand-written program counter.  `toF s a` / `toA s a` = the hand-written
+action (`load t` or `cas t`) that `tau t` is in state `s`. -/
+
+/-- The translator accepted the five functions (otherwise the generated body is empty and the note names the construct).
+    AddIf64's guard `if addr == nil { return false }` is not translated: the models assume a non-nil address. -/
+theorem C17_translation_in_fragment :
+    Got.Generated.AstLoomAtomics.addFlagNote = "ok" ∧ Got.Generated.AstLoomAtomics.removeFlagNote = "ok" ∧
+    Got.Generated.AstLoomAtomics.addIf64Note = "ok" ∧ Got.Generated.AstLoomAtomics.tryLockNote = "ok" ∧
+    Got.Generated.AstLoomAtomics.countNote = "ok" := by decide
+
+/-- **Translator tie, Flag, one step.** Corresponding states stay corresponding: an action of the LTS generated from the
+    source of AddFlag/RemoveFlag is exactly the action `toF s a` of the hand-written model `stepF`. -/
+theorem C17_translated_source_flag_step : ∀ (g : Got.Model.AtomicIR.GState) (s : FSt) (a : Got.Model.AtomicsGen.CAct FOp),
+    Got.Lemmas.AtomicsAst.RelF g s →
+    Got.Lemmas.AtomicsAst.RelF (Got.Model.AtomicsGen.flagStep g a) (stepF s (Got.Lemmas.AtomicsAst.toF s a)) :=
+  Got.Lemmas.AtomicsAst.simF
+
+/-- **No lost update, for the translated source.** After any run of the generated Flag LTS (any number of goroutines, any
+    interleaving) there is a run of the hand-written model, action for action, that ends in the corresponding state; the
+    word of the generated LTS is therefore the sequential fold, in CAS order, of exactly the calls whose CAS succeeded, each
+    call appearing there exactly once when it has returned and not at all while it is pending (`C17_flag_atomic`). -/
+theorem C17_translated_source_flag_atomic (v0 : W64) (acts : List (Got.Model.AtomicsGen.CAct FOp)) :
+    ∃ facts : List FAct, facts.length = acts.length ∧
+      let s := runF (initF v0) facts
+      Got.Lemmas.AtomicsAst.RelF (Got.Model.AtomicsGen.flagRun v0 acts) s ∧
+      (Got.Model.AtomicsGen.flagRun v0 acts).mem.cell = s.log.foldl (fun v e => e.2.apply v) v0 ∧
+      ∀ t, (s.log.filter (fun e => e.1 == t)).length + (if s.pc t = .idle then 0 else 1) = s.calls t := by
+  obtain ⟨facts, hl, hr⟩ := Got.Lemmas.AtomicsAst.flagRun_rel v0 acts
+  have h := C17_flag_atomic v0 facts
+  exact ⟨facts, hl, hr, by rw [hr.cell]; exact h.1, h.2⟩
+
+/-- **Translator tie, AddIf64, one step.** -/
+theorem C17_translated_source_addif_step : ∀ (pred : W64 → W64 → Bool) (g : Got.Model.AtomicIR.GState) (s : ASt)
+    (aux : Nat → W64 × W64) (a : Got.Model.AtomicsGen.CAct W64), Got.Lemmas.AtomicsAst.RelA g s aux →
+    Got.Lemmas.AtomicsAst.RelA (Got.Model.AtomicsGen.addIfStep pred g a) (stepA pred s (Got.Lemmas.AtomicsAst.toA s a))
+      (Got.Lemmas.AtomicsAst.auxA s aux a) :=
+  Got.Lemmas.AtomicsAst.simA
+
+/-- **The guarded update, for the translated source.** Any invariant that the guarded update preserves holds of the word
+    after every run of the LTS generated from the source of AddIf64, for every number of goroutines and every interleaving. -/
+theorem C17_translated_source_addif (pred : W64 → W64 → Bool) (Inv : W64 → Prop)
+    (hcl : ∀ d v, pred d v = true → Inv v → Inv (v + d)) (v0 : W64) (h0 : Inv v0)
+    (acts : List (Got.Model.AtomicsGen.CAct W64)) :
+    Inv (Got.Model.AtomicsGen.addIfRun pred v0 acts).mem.cell := by
+  obtain ⟨aacts, aux, _, hr⟩ := Got.Lemmas.AtomicsAst.addIfRun_rel pred v0 acts
+  rw [hr.cell]
+  exact (C17_addif pred Inv hcl v0 h0 aacts).1
+
+/-- instance: with the predicate `old + delta <= limit` the counter of the translated source never exceeds the limit. -/
+theorem C17_translated_source_addif_limit (limit : Int) (v0 : W64) (h0 : v0.toInt ≤ limit)
+    (acts : List (Got.Model.AtomicsGen.CAct W64)) :
+    (Got.Model.AtomicsGen.addIfRun (limitPred limit) v0 acts).mem.cell.toInt ≤ limit :=
+  C17_translated_source_addif (limitPred limit) (fun v => v.toInt ≤ limit)
+    (by intro d v hp _; simpa [limitPred] using hp) v0 h0 acts
+
+/-- non-vacuity: the generated LTSs really run.  Flag: both goroutines load 0, the first CAS succeeds, the second fails
+    and retries — the word ends as 3 and both calls have returned.  AddIf64 with limit 1: both pass the test on 0, one CAS
+    wins, the loser re-tests against 1 and gives up (returns false). -/
+example :
+    let g := Got.Model.AtomicsGen.flagRun 0 [.invoke 1 (.add 1), .invoke 2 (.add 2), .tau 1, .tau 2, .tau 1, .tau 2, .tau 2, .tau 2]
+    g.mem.cell = 3#64 ∧ Got.Model.AtomicIR.isIdle (g.conf 1) = true ∧ Got.Model.AtomicIR.isIdle (g.conf 2) = true ∧
+    g.hist.length = 4 := by decide
+
+example :
+    let g := Got.Model.AtomicsGen.addIfRun (limitPred 1) 0 [.invoke 1 1, .invoke 2 1, .tau 1, .tau 2, .tau 1, .tau 2, .tau 2]
+    g.mem.cell = 1#64 ∧
+    g.hist = [(1, .inv 0 [.i64 1]), (2, .inv 0 [.i64 1]), (1, .ret (some (.bool true))), (2, .ret (some (.bool false)))] := by
+  decide
+
+/-! ### TryLock and Count, translated
+
+`Got.Generated.AstLoomAtomics.tryLock` / `count` are re-translated from /repo/loom/mutex.go on every run (the state word
+`(*int32)(unsafe.Pointer(&m.Mutex))` is the IR's `cell32`; named constants are replaced by their values as computed by
+go/types; `return <CAS>` is `tmp := <CAS>; return tmp`).  `Got.Model.AtomicsGen.Mx` is the joint system: the TryLock
+threads of the *generated* LTS, composed with the hand-written transcription of the sync.Mutex steps (`EnvAct`: Unlock,
+Lock fast/slow path, spinning, wake-up, hand-off) as the environment, which stores into the generated LTS's word the word
+the transcribed step produces.  `RelM g s`: same word, every thread's configuration is the image of its hand-written pc,
+and the result of each thread's last completed TryLock in the generated history is the hand-written `res`. -/
+
+/-- **Translator tie, TryLock, one step**: invoking TryLock, a thread's next atomic access (`tau t` = the hand-written
+    `tryCas1`/`tryLoad`/`tryCas2` step `tauM s t`), and an environment step all keep the generated and the hand-written
+    state corresponding. -/
+theorem C17_translated_source_trylock_step (g : Got.Model.AtomicIR.GState) (s : MSt) (h : Got.Lemmas.AtomicsAst.RelM g s) :
+    (∀ t, Got.Lemmas.AtomicsAst.RelM
+        (Got.Model.AtomicIR.step Got.Model.AtomicsGen.mutexProg Got.Model.AtomicsGen.noPred g (.inv t 0 []))
+        (stepM s (.tryStart t))) ∧
+    (∀ t, Got.Lemmas.AtomicsAst.RelM
+        (Got.Model.AtomicIR.step Got.Model.AtomicsGen.mutexProg Got.Model.AtomicsGen.noPred g (.tau t))
+        (stepM s (Got.Model.AtomicsGen.tauM s t))) ∧
+    (∀ e : Got.Model.AtomicsGen.EnvAct, Got.Lemmas.AtomicsAst.RelM
+        { g with mem := { g.mem with cell32 := (stepM s e.toM).word } } (stepM s e.toM)) :=
+  ⟨fun t => Got.Lemmas.AtomicsAst.simM_invoke g s t h, fun t => Got.Lemmas.AtomicsAst.simM_tau g s t h,
+   fun e => Got.Lemmas.AtomicsAst.simM_env g s e h⟩
+
+/-- **Mutual exclusion for the translated TryLock.** After every joint run from an unlocked word (any number of goroutines
+    running the generated TryLock, any interleaving with the transcribed Lock/Unlock traffic): the hand-written component is a
+    reachable state of `stepM` corresponding to the generated one, so the generated LTS's word has its locked bit set iff
+    somebody holds the mutex, at most one goroutine holds it, and the result the generated TryLock returned last to each
+    thread is the model's `res` (about which `C17_trylock_success` / `C17_trylock_true_only_by_cas` speak). -/
+theorem C17_translated_source_trylock_excl (w0 : Word) (h0 : isLocked w0 = false) (acts : List Got.Model.AtomicsGen.MxAct) :
+    let x := Got.Model.AtomicsGen.mxRun w0 acts
+    (∃ macts, x.s = runM (initM w0) macts) ∧ Got.Lemmas.AtomicsAst.RelM x.g x.s ∧
+    x.s.holders.length ≤ 1 ∧ isLocked x.g.mem.cell32 = !x.s.holders.isEmpty ∧
+    ∀ t, Got.Model.AtomicsGen.lastRetB x.g.hist t = x.s.res t := by
+  intro x
+  obtain ⟨hr, macts, hm⟩ := Got.Lemmas.AtomicsAst.mxRun_rel w0 acts
+  have he := C17_trylock_excl w0 h0 macts
+  simp only [← hm] at he
+  exact ⟨⟨macts, hm⟩, hr, he.1, by rw [hr.word]; exact he.2.1, hr.res⟩
+
+/-- **Count is truthful, for the translated source.** For every state word `w`, the LTS generated from the source of
+    `Count` — invocation, its one atomic load, the int32 arithmetic, return — returns `count w` = waiters + (1 if locked)
+    (`C17_count`). -/
+theorem C17_translated_source_count (w : Word) :
+    ∃ r : BitVec 64,
+      (Got.Model.AtomicsGen.countRun w).hist = [(0, .inv 1 []), (0, .ret (some (.i64 r)))] ∧
+      r.toInt = w.toInt / 2 ^ mShift + (if isLocked w then 1 else 0) := by
+  obtain ⟨r, hh, hr, _⟩ := Got.Lemmas.AtomicsAst.count_gen w
+  exact ⟨r, hh, by rw [hr]; exact C17_count w⟩
+
+/-- non-vacuity: two goroutines race the generated TryLock on a free mutex; the first CAS wins, the loser's CAS fails, it
+    loads a locked word and is refused; then the holder's Unlock (environment) clears the word.  Count on word 17 is 3. -/
+example :
+    let x := Got.Model.AtomicsGen.mxRun 0 [.invoke 1, .invoke 2, .tau 1, .tau 2, .tau 2]
+    x.g.mem.cell32 = 1#32 ∧ Got.Model.AtomicsGen.lastRetB x.g.hist 1 = some true ∧
+    Got.Model.AtomicsGen.lastRetB x.g.hist 2 = some false ∧ x.s.holders = [1] ∧
+    (Got.Model.AtomicsGen.mxStep x (.env (.unlock 1))).g.mem.cell32 = 0#32 ∧
+    (Got.Model.AtomicsGen.countRun 17#32).hist = [(0, .inv 1 []), (0, .ret (some (.i64 3#64)))] := by decide
